@@ -160,7 +160,7 @@ Proof.
   - (* iter *) f_equal. f_equal. apply iter_ok.
     + intros k ent H. apply cur_val_ok. exact H.
     + intros k ent H D. unfold cur_val. destruct (ent_del _ _ H D) as [-> _]. reflexivity.
-  - (* iterflags *) f_equal. rewrite (sim_kf _ _ HS). unfold live. rewrite flat_map_kfmap.
+  - (* iterflags *) f_equal. f_equal. rewrite (sim_kf _ _ HS). unfold live. rewrite flat_map_kfmap.
     apply flat_map_ext_in. intros [k ent] Hin. cbn [fst snd].
     pose proof (kfind_in _ _ _ (sim_sorted _ _ HS) Hin) as Hf.
     unfold live_ent. destruct (k_del ent); [rewrite andb_false_r; reflexivity|].
